@@ -94,6 +94,7 @@ func (w *_watcher) run() {
 	var curVersion string
 
 	var retry *time.Timer
+	retrych := make(chan struct{})
 
 mainloop:
 	for {
@@ -120,10 +121,22 @@ mainloop:
 		case <-session.done():
 			w.log.Debugf("session done.  retrying version %v in %v", curVersion, watchRetryDelay)
 
+			// outch is kept: the controller loop holds on to it until the
+			// next reset(), and events already buffered in it are still valid.
 			session.stop()
 			session = nullWatchSession{}
-			outch = nil
-			retry = w.scheduleRetry(w.resetch, curVersion)
+			retry = w.scheduleRetry(retrych)
+
+		case <-retrych:
+			if retry == nil {
+				// cancelled by a reset() that raced with the timer
+				continue
+			}
+			w.log.Debugf("retrying version %v", curVersion)
+
+			retry = nil
+			session.stop()
+			session = newWatchSession(ctx, w.log, w.client, curVersion)
 
 		case evt := <-session.events():
 
@@ -152,10 +165,10 @@ mainloop:
 	}
 }
 
-func (w *_watcher) scheduleRetry(ch chan string, vsn string) *time.Timer {
+func (w *_watcher) scheduleRetry(ch chan struct{}) *time.Timer {
 	return time.AfterFunc(watchRetryDelay, func() {
 		select {
-		case ch <- vsn:
+		case ch <- struct{}{}:
 		case <-w.lc.ShuttingDown():
 		}
 	})
